@@ -23,6 +23,8 @@ func checkC20(c *Ctx) {
 	c20TraversalParser(c)
 	c20TypeTables(c)
 	c20Purity(c)
+	c20TypeModes(c)
+	diagsKeptRule(c, "R7", 20, "hcl", "hclsyntax", "ext/typeexpr")
 	c.NotCovered("equality of the TraverseAbs result and Value; agreement of diagnostics; equivalence of a JSON string and native text")
 }
 
@@ -713,4 +715,50 @@ func c20Purity(c *Ctx) {
 	c.Floor("static.pure roots", len(roots), 12, "package-level accessors and the accessor methods of the expression types")
 	c.Floor("static.pure functions", nFns, 20, "functions reachable from the static accessors")
 	c.Floor("static.pure writes", nWrites, 10, "writes classified")
+}
+
+// R8: the recursive type-expression parser keeps its mode.
+func c20TypeModes(c *Ctx) {
+	c.Rule("R8 type.modes: every recursive call of typeexpr.getType passes its own `constraint` and `withDefaults` parameters on unchanged and in the same positions: a nested type expression is parsed in the mode of the expression that contains it (TypeConstraint accepts `any` at every depth; Type rejects it at every depth)")
+	fn := c.P.LookupFunc("ext/typeexpr", "getType")
+	if fn == nil {
+		c.CheckerFail("type.modes", "anchor typeexpr.getType does not resolve")
+		return
+	}
+	c.Fn(FuncName(fn))
+	var modes []int
+	for i, p := range fn.Params {
+		if b, ok := p.Type().Underlying().(*types.Basic); ok && b.Kind() == types.Bool {
+			modes = append(modes, i)
+		}
+	}
+	n := 0
+	for _, f := range append([]*ssa.Function{fn}, fn.AnonFuncs...) {
+		for _, b := range f.Blocks {
+			for _, ins := range b.Instrs {
+				call, ok := ins.(*ssa.Call)
+				if !ok || call.Call.StaticCallee() != fn {
+					continue
+				}
+				n++
+				c.Sites++
+				good := true
+				for _, i := range modes {
+					a := call.Call.Args[i]
+					if a != ssa.Value(fn.Params[i]) && !isSpillOf(a, fn.Params[i]) {
+						// inside a closure the parameter is a captured variable
+						if fv, ok := a.(*ssa.UnOp); ok {
+							if v, ok := fv.X.(*ssa.FreeVar); ok && v.Name() == fn.Params[i].Name() {
+								continue
+							}
+						}
+						good = false
+					}
+				}
+				c.Check(good, "type.modes", "ext/typeexpr.getType:recursive-call", call.Pos(), "modes passed on unchanged",
+					"a nested type expression is parsed with different constraint/defaults modes than its parent: what TypeString prints for a nested type no longer parses back in the same entry point")
+			}
+		}
+	}
+	c.Floor("type.modes recursive calls", n, 2, "list/set/map element, object attributes, tuple elements, optional(...)")
 }
